@@ -309,7 +309,7 @@ LOC_RT = [V('locale', r'::vspec::lemma_(dash_join_one|kv_ser_join|kv_toks_\w+|la
           V('locale', r'::(lemma_locale_roundtrip|lemma_extmap_roundtrip)$'), V('locale', r'::TransformExtensionList::lemma_view_ok$'),
           V('langid', r'::vspec::lemma_lid_roundtrip_suffix$')]
 LOC_INV = [V('locale', r'::vspec::lemma_(fold_shapes|fold_skip|u_end_fold|tf_end_fold|last_key_fold|kv_fold_fold|last_key_bounds|u_first_key_fold|u_first_key_bounds|'
-                        r'u_body_fold|t_body_fold|x_fold|ext_parse_fold)$'), V('locale', r'::lemma_locale_case_sep_invariant$')]
+                        r'u_body_fold|t_body_fold|x_fold|ext_parse_fold|ext_u_gen|ext_t_gen|ext_order_invariant)$'), V('locale', r'::lemma_locale_case_sep_invariant$')]
 RT_K = [K('langid_leaf', h) for h in LEAF_LID + ['leaf_language_default_is_und', 'leaf_subtag_eq_str']]
 
 PROPS.update({
@@ -333,10 +333,10 @@ PROPS.update({
         'verus': [V('bridge', BRIDGE_ALL)] + LID_PARSER + LID_INV + LID_RT + LOC_PARSER + LOC_INV,
         'bounded': [B_INV],
         'standin': ['lid', 'locale'],
-        'trusted': ['proved: letter case and separator choice for LanguageIdentifier AND Locale (lemma_locale_case_sep_invariant over the verified parser contract), order / repetition '
-                    'of variants; NOT proved: the locale-level order clauses (order / repetition of attributes, order of keywords and tfields, order of -u- and -t-) - they follow from '
-                    'the shape of the verified contracts (attributes enter as a set, keywords / tfields as a map, -u- and -t- fill independent slots) but no composing lemma exists: '
-                    'covered by the bounded obligation bounded:inv only'],
+        'trusted': ['proved: letter case and separator choice for LanguageIdentifier AND Locale (lemma_locale_case_sep_invariant over the verified parser contract); order / repetition '
+                    'of variants; the locale-level order clauses (lemma_ext_order_invariant: either order of -u- / -t-, any listing of the attributes, any order of keywords / tfields with '
+                    'distinct keys prescribe the same views) - the order lemma is stated on lower-case subtags without `true` values and composes with the case lemma; inputs that '
+                    'combine `true` values with reordering are covered by the bounded obligation bounded:inv only'],
         'explanation': 'the parser contracts are functional in the subtag sequence; lemma_subtags_fold (byte strings that differ in case and -/_ split into subtag sequences that differ '
                        'only in case), lemma_lid_case_invariant (such sequences are accepted alike and prescribed the same value) and lemma_lid_variant_order_invariant (the value depends on '
                        'the variants only through the set of their lower-cased forms) give both-fail-or-equal for LanguageIdentifier; leaf parsers are case-insensitive by their Kani contracts',
